@@ -310,7 +310,7 @@ M("c12-packaged-no-cap", "C12", "R4.packaged-strategy-shape", "retries.py",
 M("c12-wait-strategy-no-floor", "C12", "R4.packaged-strategy-shape", "waits.py",
   "        final_delay: int = max(1, math.ceil(delay_with_jitter))", "        final_delay: int = math.ceil(delay_with_jitter)")
 M("c12-decline-but-suspend", "C12", "R2.decision-implies-effect", "operation/step.py",
-  "        if retry_decision.should_retry:", "        if retry_decision.should_retry or True:")
+  "        if should_retry:\n            logger.debug(\n                \"Retrying step", "        if should_retry or True:\n            logger.debug(\n                \"Retrying step")
 M("c12-benign-clamp-with-max", "C12", "", "operation/step.py",
   "                delay_seconds = 1\n\n            retry_operation", "                delay_seconds = max(1, delay_seconds)\n\n            retry_operation", expect="silent")
 M("c12-benign-cutoff-inverted", "C12", "", "retries.py",
@@ -1133,10 +1133,10 @@ M("benign-replay-status-local", "ALL", "", "execution.py",
 
 # ----------------------------------------------------------------------------- round 3 (rules added after independent mutants)
 M("c07-tolerated-failure-skips-suspend-check", "C07", "R2.suspension-reevaluated-on-branch-end", "concurrency/executor.py",
-  """            exe_state.fail(e)
-            self.counters.fail_task()
-""", """            exe_state.fail(e)
-            self.counters.fail_task()
+  """                exe_state.fail(e)
+                self.counters.fail_task()
+""", """                exe_state.fail(e)
+                self.counters.fail_task()
             if not self.counters.should_complete():
                 return
 """)
@@ -1328,25 +1328,24 @@ M("benign-error-codec-dict-comprehension", "ALL", "", "lambda_service.py",
 # further behaviour-preserving refactors (added with rounds 3/4): every check must stay silent
 M2("benign-done-callback-tail-helper", "ALL", "", [
     {"file": "concurrency/executor.py", "old": """        # Check if execution should complete or suspend
-        if self.counters.should_complete():
-            self._completion_event.set()
-        else:
+        with self._decision_lock:
+            if self.counters.should_complete():
+                self._completion_event.set()
+            else:
+                suspend_result = self.should_execution_suspend()
+                if suspend_result.should_suspend:
+                    self._suspend_exception = suspend_result.exception
+                    self._completion_event.set()
+""", "new": """        # Check if execution should complete or suspend
+        with self._decision_lock:
+            if self.counters.should_complete():
+                self._completion_event.set()
+                return
             suspend_result = self.should_execution_suspend()
             if suspend_result.should_suspend:
                 self._suspend_exception = suspend_result.exception
                 self._completion_event.set()
-""", "new": """        self._decide_after_branch_end()
-
-    def _decide_after_branch_end(self) -> None:
-        # Check if execution should complete or suspend
-        if self.counters.should_complete():
-            self._completion_event.set()
-            return
-        suspend_result = self.should_execution_suspend()
-        if suspend_result.should_suspend:
-            self._suspend_exception = suspend_result.exception
-            self._completion_event.set()
-"""}], expect="silent")
+"""}], expect="silent", desc="the decision written with an early return instead of else (it was a helper method before the decision lock of 6b4dbfe)")
 M("benign-ancestor-walk-renamed-locals", "ALL", "", "state.py",
   """        seen: set[str] = set()
         current = parent_id
@@ -1487,9 +1486,9 @@ M("c06-success-without-failure-look", "C06", "R5.verdict-consults-failure-state"
 M("c06-look-without-join", "C06", "R5.verdict-consults-failure-state", "execution.py",
   "                execution_state.stop_checkpointing()\n                checkpoint_future.result()\n                execution_state.raise_if_checkpointing_failed()",
   "                execution_state.raise_if_checkpointing_failed()")
-M("c10-resumed-op-not-asked", "C10", "", "operation/base.py",
-  "                state is not None\n                and self.runs_user_code\n", "                False\n                and self.runs_user_code\n", expect="silent",
-  desc="since 0ae22a8 every operation asks on entry: the second query right before the user code is redundant, removing it alone leaves the necessary condition intact")
+M("c10-resumed-op-not-asked", "C10", "R6.asks-again-after-a-blocking-checkpoint", "operation/base.py",
+  "                state is not None\n                and self.runs_user_code\n", "                False\n                and self.runs_user_code\n",
+  desc="the query right before the user code removed. Labelled benign after 0ae22a8 (every operation asks on entry) until r8_C10 showed what it is still for: an at-most-once step blocks on its START between the entry query and its function")
 M2("c10-neither-query-before-resumed-user-code", "C10", "R6.resumed-operation-checks-first", [
     {"file": "operation/base.py", "old": "                state is not None\n                and self.runs_user_code\n", "new": "                False\n                and self.runs_user_code\n"},
     {"file": "operation/base.py", "old": "        if state is not None:\n            state.raise_if_in_orphaned_branch(self.operation_identifier.parent_id)\n", "new": ""}])
@@ -1509,11 +1508,12 @@ M("c09-failed-item-wrapper-type", "C09", "R1.failed-item-carries-recorded-error"
 M("c12-power-overflows", "C12", "R4.backoff-power-cannot-overflow", "retries.py",
   """        except OverflowError:
             # a float rate overflows long before the cap applies (2.0 ** 1024): the product is beyond
-            # the cap then - unless the initial delay is zero (the product stays zero) or the rate
-            # is negative (the product does not grow towards the cap)
+            # the cap then - unless the initial delay is zero (the product stays zero) or the
+            # product is negative (a negative rate with an odd exponent)
             base_delay = (
                 config.max_delay_seconds
-                if config.initial_delay_seconds > 0 and config.backoff_rate > 0
+                if config.initial_delay_seconds > 0
+                and (config.backoff_rate > 0 or (attempts_made - 1) % 2 == 0)
                 else 0
             )
 """, "        finally:\n            pass\n")
@@ -1527,8 +1527,8 @@ M("c20-zero-millis-undecoded", "C20", "R4.json-reader-tests-presence", "lambda_s
   '        if (ms := data_copy.get("StartTimestamp")) is not None:', '        if ms := data_copy.get("StartTimestamp"):')
 
 # ----------------------------------------------------------------------------- review-agent round h2
-M("c10-step-does-not-ask-orphan-state", "C10", "", "operation/step.py",
-  "\n    runs_user_code = True\n", "\n", expect="silent", desc="redundant since the entry query of 0ae22a8 (see c10-neither-query-before-resumed-user-code)")
+M("c10-step-does-not-ask-orphan-state", "C10", "R6.asks-again-after-a-blocking-checkpoint", "operation/step.py",
+  "\n    runs_user_code = True\n", "\n", desc="labelled benign after 0ae22a8 until r8_C10 (see c10-resumed-op-not-asked)")
 M("c16-callback-asks-orphan-state", "C16", "R2.no-orphan-query-without-user-code", "operation/callback.py",
   "    CRITICAL: Errors are deferred to Callback.result() for deterministic replay.",
   "    CRITICAL: Errors are deferred to Callback.result() for deterministic replay.\n    \"\"\"\n\n    runs_user_code = True\n\n    \"\"\"",
@@ -1576,7 +1576,8 @@ M("c16-child-limit-counts-characters", "C16", "R1.limit-compared-with-bytes", "o
 M("c12-overflow-fallback-ignores-zero-initial", "C12", "R4.overflow-fallback-follows-the-product", "retries.py",
   """            base_delay = (
                 config.max_delay_seconds
-                if config.initial_delay_seconds > 0 and config.backoff_rate > 0
+                if config.initial_delay_seconds > 0
+                and (config.backoff_rate > 0 or (attempts_made - 1) % 2 == 0)
                 else 0
             )""", "            base_delay = config.max_delay_seconds", desc="the repair of h2_C12 reverted")
 M("c18-response-none-dereferenced", "C18", "R3.foreign-attribute-none-safe", "exceptions.py",
@@ -1666,6 +1667,11 @@ M("c10-orphan-handler-counts-the-branch", "C10", "R5.orphan-handler-is-inert", "
 M("c03-strategy-called-unprotected", "C03", "R1.record-before-outcome", "operation/step.py",
   """        try:
             retry_decision: RetryDecision = retry_strategy(error, retry_attempt + 1)
+            # read the decision here as well: one that cannot be read (None, a delay that is not
+            # a Duration) is a failed strategy too
+            should_retry: bool = retry_decision.should_retry
+            delay_seconds = retry_decision.delay_seconds if should_retry else 0
+            too_short: bool = should_retry and delay_seconds < 1
         except Exception:  # noqa: BLE001
             # A strategy that fails cannot decide anything: the step's own failure is recorded and
             # raised as final, instead of leaving the call without any terminal record.
@@ -1675,7 +1681,12 @@ M("c03-strategy-called-unprotected", "C03", "R1.record-before-outcome", "operati
                 self.operation_identifier.name,
             )
             retry_decision = RetryDecision.no_retry()
-""", "        retry_decision: RetryDecision = retry_strategy(error, retry_attempt + 1)\n", desc="fix 089b20e reverted")
+            should_retry, delay_seconds, too_short = False, 0, False
+""", """        retry_decision: RetryDecision = retry_strategy(error, retry_attempt + 1)
+        should_retry: bool = retry_decision.should_retry
+        delay_seconds = retry_decision.delay_seconds if should_retry else 0
+        too_short: bool = should_retry and delay_seconds < 1
+""", desc="fix 089b20e reverted")
 M("c15-bytes-decoded-through-b64decode", "C15", "R12.leaf-decoder-no-deeper-than-leaf-encoder", "serdes.py",
   "        return binascii.a2b_base64(value.encode(\"utf-8\"))", "        return base64.b64decode(value.encode(\"utf-8\"))", desc="fix 2d5fcf1 reverted")
 M("c09-suspension-raised-without-second-look", "C09", "R5.decided-policy-overrules-a-recorded-suspension", "concurrency/executor.py",
